@@ -143,6 +143,14 @@ def linear_population(rng, thorough=False):
     yield 'MatrixOperator/dense/r3w->r4w-same', lambda: odl.MatrixOperator(M, domain=r3w, range=odl.rn(4, weighting=2.0))
     yield 'MatrixOperator/dense/r3aw', lambda: odl.MatrixOperator(M, domain=r3aw)
     yield 'MatrixOperator/dense/c3', lambda: odl.MatrixOperator(Mc)
+    # complex matrices with structure: symmetric but not Hermitian (DFT matrix, B + B^T, i * identity), Hermitian, skew-Hermitian
+    Bc = rng.normal(size=(3, 3)) + 1j * rng.normal(size=(3, 3))
+    yield 'MatrixOperator/dense/c3-symmetric-not-hermitian', lambda: odl.MatrixOperator(Bc + Bc.T)
+    yield 'MatrixOperator/dense/c3-dft-matrix', lambda: odl.MatrixOperator(np.exp(-2j * np.pi * np.outer(np.arange(3), np.arange(3)) / 3))
+    yield 'MatrixOperator/dense/c3-i-times-identity', lambda: odl.MatrixOperator(1j * np.eye(3))
+    yield 'MatrixOperator/dense/c3-hermitian', lambda: odl.MatrixOperator(Bc + Bc.conj().T)
+    yield 'MatrixOperator/dense/c3-skew-hermitian', lambda: odl.MatrixOperator(Bc - Bc.conj().T)
+    yield 'MatrixOperator/dense/r3-symmetric', lambda: odl.MatrixOperator(M[:, :3] + M[:, :3].T if M.shape[0] == 3 else np.eye(3))
     yield 'MatrixOperator/dense/real-matrix-on-c3', lambda: odl.MatrixOperator(M, domain=odl.cn(3))
     yield 'MatrixOperator/axis1/r(2,3)', lambda: odl.MatrixOperator(M, domain=odl.rn((2, 3)), axis=1)
     yield 'MatrixOperator/axis0/r(3,2)', lambda: odl.MatrixOperator(M, domain=odl.rn((3, 2)), axis=0)
